@@ -31,6 +31,8 @@ def lit(v):
 
 def same(a, b):
     """equal values; scalars must also agree in type (True vs 1 vs 1.0)"""
+    if isinstance(b, NotOthers):
+        return not any(same(a, o) for o in b.others)
     if isinstance(b, (bool, int, float, str)) or b is None:
         return type(a) is type(b) and a == b
     if isinstance(b, list):
@@ -51,12 +53,23 @@ def signature_text(k, mask):
     return " ".join(parts)
 
 
-def call_shapes(k, mask):
-    """(given tuple of param indices in call order, n_positional)"""
+class NotOthers:
+    """expected value of an omitted parameter that declares no default: the statement gives it no value, so the
+    only demand is that it does not receive the argument or the default of ANOTHER parameter"""
+
+    def __init__(self, others):
+        self.others = others
+
+    def __repr__(self):
+        return f"<no value; in particular none of {self.others!r}>"
+
+
+def call_shapes(k, mask, loose=False):
+    """(given tuple of param indices in call order, n_positional); loose: only the shapes that omit a parameter without default"""
     out = []
     for given in itertools.product([False, True], repeat=k):
-        if any((not g) and (not mask[i]) for i, g in enumerate(given)):
-            continue  # omitted parameter without default: not covered by the statement
+        if any((not g) and (not mask[i]) for i, g in enumerate(given)) != loose:
+            continue  # omitted parameter without default: judged with the weaker NotOthers oracle (loose shapes)
         idx = [i for i in range(k) if given[i]]
         # positional prefix must bind parameters 0..m-1
         max_pos = 0
@@ -134,8 +147,10 @@ def expected_binding(k, mask, shape, vals):
     for i in range(k):
         if i in pos or i in named:
             b[f"p{i}"] = pyval(vals[i])
-        else:
+        elif mask[i]:
             b[f"p{i}"] = DEFAULTS[i]
+        else:
+            b[f"p{i}"] = NotOthers([pyval(vals[j]) for j in range(k) if j != i and (j in pos or j in named)] + [DEFAULTS[j] for j in range(k) if j != i and mask[j]])
     return b
 
 
@@ -176,7 +191,7 @@ def check(task):
         return res
     for name, val in exp.items():
         if name not in echo or not same(echo[name], val):
-            bad(f"binding:{form}:{'default' if (int(name[1:]) not in shape[0] and int(name[1:]) not in shape[1]) else ('positional' if int(name[1:]) in shape[0] else 'named')}",
+            bad(f"binding:{form}:{('omitted-without-default-took-anothers-value' if isinstance(val, NotOthers) else 'default') if (int(name[1:]) not in shape[0] and int(name[1:]) not in shape[1]) else ('positional' if int(name[1:]) in shape[0] else 'named')}",
                 f"callee {signature_text(k, mask)} called `{call_text(shape, vals)}`: parameter {name} = {echo.get(name)!r}, expected {val!r}")
     if echo.get("v") != "callee":
         bad("locals:callee", f"callee local $v = {echo.get('v')!r}")
@@ -203,6 +218,8 @@ def check(task):
     if form == "assign_await":
         want = {"last": exp[f"p{k - 1}"], "const": "rv", "none": None}[ret]
         got = after.get("x", "<missing>")
+        if isinstance(want, NotOthers):
+            want = echo.get(f"p{k - 1}")    # whatever the callee saw is what it returns
         if not same(got, want):
             bad(f"return-value:{ret}", f"`$x = await callee ...` with `return` ({ret}) assigned {got!r}, expected {want!r}")
     else:
@@ -245,6 +262,16 @@ def tasks(tier):
                         rets = ["last", "const", "none"] if form == "assign_await" and first_combo(combo) else ["last"]
                         for ret in rets:
                             out.append((k, mask, shape, vals, form, ret))
+            # shapes that omit a parameter without declared default (weaker oracle, distinct non-None values)
+            for shape in call_shapes(k, mask, loose=True):
+                given = sorted(set(shape[0]) | set(shape[1]))
+                vals = [None] * k
+                for i, v in zip(given, (1, "s", {"k": 1})):
+                    vals[i] = v
+                for form in FORMS:
+                    if form == "activate_twice":
+                        continue
+                    out.append((k, mask, shape, vals, form, "last"))
     return out
 
 
